@@ -2727,7 +2727,7 @@ class PGPKeyring(collections_abc.Container, collections_abc.Iterable, collection
         aliases = set().union(*self._aliases)
 
         if isinstance(alias, str):
-            return alias in aliases or alias.replace(' ', '') in aliases
+            return alias in aliases or self._unspaced(alias) in aliases
 
         return alias in aliases  # pragma: no cover
 
@@ -2738,13 +2738,23 @@ class PGPKeyring(collections_abc.Container, collections_abc.Iterable, collection
         for pgpkey in itertools.chain(self._pubkeys, self._privkeys):
             yield pgpkey
 
+    @staticmethod
+    def _unspaced(alias):
+        # a fingerprint or key id may be written in groups ("ABCD 1234 ..."); any other identifier is taken as it is
+        unspaced = alias.replace(' ', '')
+        if re.fullmatch(r'[0-9A-Fa-f]{40}|[0-9A-Fa-f]{16}|[0-9A-Fa-f]{8}', unspaced):
+            return unspaced
+
+        return alias
+
     def _get_key(self, alias):
+        unspaced = self._unspaced(alias)
         for m in self._aliases:
             if alias in m:
                 return self._keys[m[alias]]
 
-            if alias.replace(' ', '') in m:
-                return self._keys[m[alias.replace(' ', '')]]
+            if unspaced in m:
+                return self._keys[m[unspaced]]
 
         raise KeyError(alias)
 
